@@ -57,9 +57,9 @@ fn tc_small() -> Vec<TC> {
 }
 fn tc_full() -> Vec<TC> {
     let mut v = Vec::new();
-    for t0 in [vec![], vec![0u8], vec![0, 1]] {
+    for t0 in [vec![], vec![0u8], vec![1u8], vec![0, 1]] {
         for t1 in [vec![], vec![1u8]] {
-            for c0 in [vec![], vec![("x", vec![0u8, 1])], vec![("x", vec![0]), ("y", vec![1])]] {
+            for c0 in [vec![], vec![("y", vec![1u8])], vec![("x", vec![0u8, 1])], vec![("x", vec![0]), ("y", vec![1])]] {
                 for c1 in [vec![], vec![("y", vec![1u8])]] {
                     v.push((t0.clone(), t1.clone(), c0.clone(), c1.clone()));
                 }
